@@ -361,6 +361,25 @@ def run(ctx, name, kind, **kw):
             pr = factors[0][0]
             for a in (0, 1, 2, n - 1, n + 1, -1, pr, rng.randrange(n), rng.randrange(n), -rng.randrange(n), rng.randrange(n, n * n)):
                 check_jac(ctx, a, n, factors, "jacobi.composite_big")
+        # arguments with long runs of trailing zero bits (a = odd * 2^k, k around machine-word sizes and beyond), against moduli of every
+        # residue class mod 8 - also placed one step down the Euclid chain (a = n - t * 2^k)
+        mods = []
+        for c in lib.ALL_CURVES:
+            d = lib.dom_of(c)
+            mods += [(d.p, [(d.p, 1)]), (d.n, [(d.n, 1)])]
+        for bits in (70, 130, 200):
+            for res in (1, 3, 5, 7):
+                pr_ = nt.random_prime(bits, rng, lambda v, res=res: v % 8 == res)
+                mods.append((pr_, [(pr_, 1)]))
+                q2 = nt.random_prime(40, rng)
+                mods.append((pr_ * q2, sorted([(pr_, 1), (q2, 1)])))
+        for n, f in mods:
+            for k in (1, 2, 31, 32, 33, 62, 63, 64, 65, 66, 127, 128, 129, 130, 191, 193):
+                if k >= n.bit_length() - 2:
+                    continue
+                t = rng.randrange(1, 1 << min(24, n.bit_length() - k - 1)) | 1
+                for a in (t << k, n - (t << k), (t << k) + n, -(t << k)):
+                    check_jac(ctx, a, n, f, "jacobi.trailing_zero_bits")
         # curve field primes and orders (prime: Jacobi = Legendre)
         for c in lib.ALL_CURVES:
             d = lib.dom_of(c)
